@@ -95,6 +95,20 @@ def check_send_recv(ctx, P):
                 elif f.guarded(r, lambda leaf, pol: any(m in checks or (m.k == "DeclRefExpr" and m.did == v.did) for m in leaf.walk()) and pol is True) is not None:
                     bad = bad or "an item is returned without the queue check having succeeded"
         o.check(bad is None, "wait -> re-check", bad, site=f.loc, construct="receive recheck " + name)
+        # progress of the spinning mode: with no signal attached, a failed look at the queue is followed by a yield before the next look
+        o = ctx.ob("recv.progress", f, "when the channel has no signal (the documented spinning mode) a receiver that finds the queue empty yields before it looks again",
+                   "a receiver that spins without yielding keeps its kernel thread for ever: with one kernel thread (or as many such receivers as threads) the "
+                   "sender never runs and the message is never sent")
+        bad = None
+        if checks:
+            isrs_ = field_load("ready_signal")
+            ischk = nodeset(checks)
+            at = atom_from([(lambda n: ischk(n) or (n.k == "BinaryOperator" and n.op == "=" and any(ischk(m) for m in n.walk())), 0), (isrs_, 0)])
+            ys_ = f.calls(("fiber_yield", "fiber_manager_yield", "fiber_signal_wait"))
+            for c0 in checks:
+                if reach(f, checks, at, start=c0, barrier=nodeset(ys_)):
+                    bad = bad or "with no signal attached, an empty queue is looked at again without a yield in between (busy loop)"
+        o.check(bad is None, "spinning mode yields", bad, site=f.loc, construct="receive busy loop " + name)
 
 
 def check_signal(ctx, P):
